@@ -68,6 +68,10 @@ def gen_case(rng):
         ch = rng.choice(chroms)
         ps = rng.choice([100, 200, 300])
         entries.append([nm, h, str(ps) if h != "none" else "none", ch])
+    if rng.random() < 0.3:
+        # the list names a read twice with the same assignment (what `haplotag --output-haplotag-list` writes for the
+        # two mates of a pair)
+        entries += [list(e) for e in entries if rng.random() < 0.3]
     rng.shuffle(entries)
     if not entries:
         entries.append([uniq[0], rng.choice(["none", "H1"]), "none", chroms[0]])
